@@ -250,6 +250,22 @@ def gen_ktype(rng, k, has_subs, refkind):
     return kt, k, refkind
 
 
+def gen_bc(rng, dims, a, b):
+    """boundary condition: none, one in-plane axis, the other, both (either letter order), an
+    out-of-plane axis, mixtures, 'neumann', 'dirichlet'.  Only one-letter dimensions can be named in
+    bc; a periodic in-plane axis is generated only if its partner also has a one-letter name (the
+    image axis could not be written into bc otherwise - the library refuses that turn)"""
+    out = [d for d in dims if len(d) == 1 and d not in (a, b)]
+    opts = ["", "", "neumann", "dirichlet"]
+    if out:
+        opts += [out[0], "".join(out)]
+    if len(a) == 1 and len(b) == 1:
+        opts += [a, b, a + b, b + a, a, b]
+        if out:
+            opts += [out[0] + a, b + out[0] + a]
+    return rng.choice(opts)
+
+
 def make_case(rng, base, level, inplace, a, b, k, refkind, mapkind, ktype=None):
     c = dict(base)
     has_subs = bool(base["subs"])
@@ -271,6 +287,7 @@ def make_case(rng, base, level, inplace, a, b, k, refkind, mapkind, ktype=None):
         # an integer reference point on an integer-typed region
         ref = [S(round(F(x))) for x in ref]
         c["ref_num"] = "int"
+    c["bc"] = gen_bc(rng, eff_dims(base), a, b) if level != "region" else ""
     c.update(level=level, inplace=inplace, a=a, b=b, k=k, ref=ref, refkind=refkind, mapkind=mapkind,
              vmap=gen_mapping(rng, base, a, b, mapkind) if level == "field" else None)
     return c
@@ -399,7 +416,7 @@ def build_region(c, pmin=None, pmax=None, ctype=None):
 def build_mesh(c):
     r = build_region(c)
     subs = {name: build_region(c, lo, hi, ctype=c.get("sub_ctype", "float")) for name, lo, hi in c["subs"]}
-    return df.Mesh(region=r, n=c["n"], subregions=subs)
+    return df.Mesh(region=r, n=c["n"], bc=c.get("bc", ""), subregions=subs)
 
 
 def build_field(c):
@@ -458,7 +475,7 @@ def obs_region(r):
 
 def obs_mesh(m):
     return dict(region=obs_region(m.region), n=[int(x) for x in m.n],
-                subs=[[name, obs_region(s)] for name, s in m.subregions.items()])
+                subs=[[name, obs_region(s)] for name, s in m.subregions.items()], bc=str(m.bc))
 
 
 def obs_field(f):
@@ -499,8 +516,14 @@ def region_close(a, b, tol):
             and a["dims"] == b["dims"] and a["units"] == b["units"])
 
 
+def periodic_set(bc):
+    """bc as the set of periodic axes (letter order is not significant); keywords name no axis"""
+    return ("keyword", bc) if bc in ("neumann", "dirichlet") else frozenset(bc)
+
+
 def mesh_close(a, b, tol):
     return (region_close(a["region"], b["region"], tol) and a["n"] == b["n"]
+            and periodic_set(a["bc"]) == periodic_set(b["bc"])
             and [s[0] for s in a["subs"]] == [s[0] for s in b["subs"]]
             and all(region_close(x[1], y[1], tol) for x, y in zip(a["subs"], b["subs"])))
 
@@ -573,6 +596,14 @@ def oracle_forward(c, level, o0, o1, viol):
     if n1 != swapped(n0):
         viol.append("n-swap-iff-odd")
         return
+    # periodicity turns with the cells: for odd k the periodic axes are the image of the periodic axes
+    # under the exchange of the two in-plane axes; even k, 'neumann', 'dirichlet': unchanged
+    p0, p1_ = periodic_set(m0["bc"]), periodic_set(m1["bc"])
+    if isinstance(p0, frozenset) and odd:
+        ex = {c["a"]: c["b"], c["b"]: c["a"]}
+        p0 = frozenset(ex.get(ch, ch) for ch in p0)
+    if p0 != p1_:
+        viol.append("periodicity-turns-with-cells")
     if [s[0] for s in m0["subs"]] != [s[0] for s in m1["subs"]]:
         viol.append("subregion-names")
         return
@@ -625,6 +656,30 @@ def oracle_forward(c, level, o0, o1, viol):
                 viol.append("covariance-values")
     if len(seen) != math.prod(n0):
         viol.append("covariance-geometry")
+
+
+def diff_clause(c, viol):
+    """f.rotate90(...).diff(image axis) == sign * f.diff(axis).rotate90(...) for a fully valid scalar
+    field made of the case's first component (C05 proves the commutation; here the bc bookkeeping)"""
+    k4 = c["k"] % 4
+    a, b = c["a"], c["b"]
+    image = {a: [(a, 1), (b, 1), (a, -1), (b, -1)][k4], b: [(b, 1), (a, -1), (b, -1), (a, 1)][k4]}
+    nv = c["nvdim"]
+    vals = np.array([fl(x) for x in c["vals"]], dtype=float).reshape(*c["n"], nv)[..., :1]
+    try:
+        for ax in (a, b):
+            f = df.Field(build_mesh(c), nvdim=1, value=vals.copy())
+            img, sgn = image[ax]
+            lhs = call(df.Field(build_mesh(c), nvdim=1, value=vals.copy()), c, c["inplace"]).diff(img)
+            rhs = call(f.diff(ax), c, False)
+            scale = max(1.0, float(np.max(np.abs(rhs.array))))
+            if lhs.array.shape != rhs.array.shape or not np.allclose(lhs.array, sgn * rhs.array, rtol=1e-9,
+                                                                      atol=1e-9 * scale):
+                viol.append("diff-commutes-with-turn")
+            if periodic_set(lhs.mesh.bc) != periodic_set(rhs.mesh.bc):
+                viol.append("periodicity-turns-with-cells")
+    except Exception:  # noqa: BLE001
+        viol.append("diff-commutes-with-turn")
 
 
 def run_case(c):
@@ -687,8 +742,8 @@ def run_case(c):
                 oc, oi = observe(res_c, level), observe(src_ip, level)
                 if res_i is not src_ip:
                     viol.append("inplace-returns-self")
-                if not obs_close(oc, oi, level, 2 * tol):
-                    viol.append("inplace-eq-copy")
+                if not obs_close(oc, oi, level, 0):
+                    viol.append("inplace-eq-copy")  # same arithmetic about the same reference: identical
                 # k and k mod 4 agree
                 st4, r4 = attempt(lambda: call(build(c), c, False, k=k % 4))
                 if st4 != "ok" or not obs_close(oc, observe(r4, level), level, 0):
@@ -719,6 +774,11 @@ def run_case(c):
                     sr, rr = attempt(lambda: call(build(c, "region"), c, c["inplace"]))
                     if sr != "ok" or not region_close(region_of(o1, level), obs_region(rr), 2 * tol):
                         viol.append("levels-agree-region")
+                # behaviour of the turned periodicity: differentiating the turned scalar field along
+                # the image axis equals turning the derivative (up to the sign of the axis direction);
+                # a bc left on the old axis shows in the boundary cells
+                if level == "field" and c["regime"] == "exact":
+                    diff_clause(c, viol)
     rec["oracle"] = sorted(set(viol))
 
     # ---- Gallina encoding
@@ -733,7 +793,7 @@ def run_case(c):
         return g.lst([f'({g.s(nm)}, ({g.ql(s["pmin"])}, {g.ql(s["pmax"])}))' for nm, s in subs])
 
     def enc_mesh(o):
-        return f'({enc_region(o["region"])}, {g.zl(o["n"])}, {enc_subs(o["subs"])})'
+        return f'({enc_region(o["region"])}, {g.zl(o["n"])}, {enc_subs(o["subs"])}, {g.s(o["bc"])})'
 
     def enc_vmap(vm):
         return g.lst([g.pair(g.s(a_), g.s(b_)) for a_, b_ in vm if isinstance(b_, str)])
@@ -745,11 +805,11 @@ def run_case(c):
     if level == "region":
         coq = f'CRegion {head} {tail} {"None" if o1 is None else "(Some " + enc_region(o1) + ")"}'
     elif level == "mesh":
-        coq = (f'CMesh {head} {g.zl(o0["n"])} {enc_subs(o0["subs"])} {tail} '
+        coq = (f'CMesh {head} {g.zl(o0["n"])} {enc_subs(o0["subs"])} {g.s(o0["bc"])} {tail} '
                f'{"None" if o1 is None else "(Some " + enc_mesh(o1) + ")"}')
     else:
         m0 = o0["mesh"]
-        coq = (f'CField {head} {g.zl(m0["n"])} {enc_subs(m0["subs"])} {g.nat(o0["nvdim"])} {g.ql(o0["vals"])} '
+        coq = (f'CField {head} {g.zl(m0["n"])} {enc_subs(m0["subs"])} {g.s(m0["bc"])} {g.nat(o0["nvdim"])} {g.ql(o0["vals"])} '
                f'{g.bl(o0["valid"])} {g.sl(o0["vdims"] or [])} {enc_vmap(o0["vmap"])} {tail} '
                f'{"None" if o1 is None else "(Some " + enc_field(o1) + ")"}')
     refk = c.get("refkind")
@@ -783,6 +843,10 @@ def stats(records):
         out["default_reference"] += int(c["ref"] is None)
         kt = c.get("k_type", "int")
         out["numpy_k"] = out.get("numpy_k", 0) + int(kt != "int")
+        out["periodic_inplane"] = out.get("periodic_inplane", 0) + int(
+            c["level"] != "region" and c.get("bc", "") not in ("", "neumann", "dirichlet")
+            and (c["a"] in c["bc"] or c["b"] in c["bc"]))
+        out["bc_keyword"] = out.get("bc_keyword", 0) + int(c.get("bc", "") in ("neumann", "dirichlet"))
         out["directed_big_k"] = out.get("directed_big_k", 0) + int(c.get("directed") == "big-k")
         out["big_k_with_subregions"] = out.get("big_k_with_subregions", 0) + int(
             abs(c["k"]) >= 250 and bool(c["subs"]) and c["level"] != "region")
